@@ -222,12 +222,19 @@ def run_case(case, rec):
                              is_leaf=lambda x: isinstance(x, bool))
             # rebuild through the public constructor path instead: a loss object with this specification
             l2 = guard.call(type(loss), **_loss_kwargs(pr, mask_tree(bits, False)))
-            vals, jac = guard.call(jax.jit(observe), l2, params, batch)
+            closed = rec.counters.get("static_mask_assignments", 0) % 2 == 1
+            if closed:
+                # the loss as the user built it, closed over by the differentiated function (it never goes through a
+                # pytree flatten, so its specification keeps the user's key order theta, phi, kappa)
+                vals, jac = guard.call(jax.jit(lambda p_, b_: observe(l2, p_, b_)), params, batch)
+                rec.count("assignments_with_loss_closed_over")
+            else:
+                vals, jac = guard.call(jax.jit(observe), l2, params, batch)
             if rec.counters.get("static_mask_assignments", 0) % 10 == 9:
                 jax.clear_caches()  # every assignment compiles afresh: keep the JIT code memory bounded
             rec.count("static_mask_assignments")
             rec.count("assignments_checked")
-            check(bits, vals, jac, "python-bool-mask/%s" % kind, code)
+            check(bits, vals, jac, "python-bool-mask/%s%s" % (kind, "/loss-closed-over" if closed else ""), code)
         rec.set_sample(kind=kind, mode="static", codes=codes[:6])
         return
     # ------------------------------------------------------------------ string forms and defaults
